@@ -203,16 +203,31 @@ def conformance(decl_texts):
     nightly_dylib()
     with cf.ThreadPoolExecutor(max_workers=16) as ex:
         reals = list(ex.map(real_expansion, decl_texts))
-    # the derive's output starts at the inherent impl; everything before is the prelude + the enum itself
-    cut = []
-    for r in reals:
-        i = r.find("impl E where")
-        cut.append(r[i:] if i >= 0 else r)
+    # token level: the derive's output is everything after the enum item itself in the expanded file
     flat_in = []
-    for (st, body), r in zip(e1_out, cut):
+    for (st, body), r in zip(e1_out, reals):
         flat_in.append(body if st == "OK" else "")
         flat_in.append(r)
     fl = expand_many([t if t.strip() else "x" for t in flat_in], mode="flat")
+    for i in range(len(decl_texts)):
+        st, body = fl[2 * i + 1]
+        if st != "OK":
+            continue
+        toks = body.split("\n")
+        cut = None
+        for j in range(len(toks) - 2):
+            if toks[j] == "enum" and toks[j + 1] == "E" and toks[j + 2] == "{":
+                depth = 0
+                for k in range(j + 2, len(toks)):
+                    if toks[k] == "{":
+                        depth += 1
+                    elif toks[k] == "}":
+                        depth -= 1
+                        if depth == 0:
+                            cut = k + 1
+                            break
+                break
+        fl[2 * i + 1] = (st, "\n".join(toks[cut:]) if cut is not None else body)
     res = []
     for i in range(len(decl_texts)):
         a, b = fl[2 * i], fl[2 * i + 1]
